@@ -231,6 +231,19 @@ INFO = {
     "C18-i": (["C18"], "caught as written", None),
     "C19-i": (["C19"], "caught as written", None),
     "C20-i": (["C20"], "caught as written", None),
+    # round 10 (the twelve properties whose round-9 change had been missed)
+    "C02-j": (["C02"], "caught as written", None),
+    "C04-j": (["C04"], "caught (generator extended while the first run was starting)", "enums whose every member's python value is spelled like the NEXT member's name"),
+    "C05-j": (["C05"], "missed at first", "mutation `meta-field-somewhere`: `__schema { .. }` / `__type(name:) { .. }` inserted into any selection set"),
+    "C06-j": (["C06"], "caught as written", None),
+    "C07-j": (["C07"], "missed at first", "a single (non-list) value for a list position through every route incl. JSON variables; a JSON object where a list of scalars / enums is expected as a wrong variant"),
+    "C08-j": (["C08"], "caught as written", None),
+    "C09-j": (["C09"], "caught (generator extended before the first run)", "one object type as query AND mutation root in a quarter of the mutation cases"),
+    "C10-j": (["C04"], "missed by C10 at VERIF_SEED=1, caught by C04 (`error-paths-differ`)", "none: the clause (a null in a non-null position has its error) is decided by the same reference executor in both checks; C10 meets a null-serialising custom scalar in a non-null position less often"),
+    "C12-j": (["C12"], "caught (generator extended before the first run)", "String / ID defaults made of digits that are not 0-9"),
+    "C15-j": (["C15"], "caught as written", None),
+    "C16-j": (["C16"], "caught as written", None),
+    "C17-j": (["C17"], "missed at first", "refusal scenario `query-operation-shared-root`: the subscription root also serves as query root and a query / anonymous operation selecting a subscription field is passed to subscribe()"),
 }
 RAN_C = ("tools/confirm_seed.sh (scratch worktree of /repo HEAD, /repo itself untouched because a background thorough run was using it): "
          "demo.py on the clean tree (exit 0), patch applied, repo test-suite (1895 passed), demo.py with the change (exit 1), "
@@ -238,7 +251,7 @@ RAN_C = ("tools/confirm_seed.sh (scratch worktree of /repo HEAD, /repo itself un
 for sid, (caught, first, strengthening) in sorted(INFO.items()):
     p = os.path.join(HERE, "seeded", sid, "meta.json")
     m = json.load(open(p))
-    m["what_i_ran"] = RAN_C if sid.endswith(("-c", "-d", "-e", "-f", "-g", "-h", "-i")) else RAN
+    m["what_i_ran"] = RAN_C if sid.endswith(("-c", "-d", "-e", "-f", "-g", "-h", "-i", "-j")) else RAN
     m["caught_by_quick_checks"] = caught
     m["first_round"] = first
     if strengthening:
